@@ -68,6 +68,7 @@ def emit_file(j, fmt):
 
 EXT = {"json": "json", "yaml": "yaml", "json5": "json5"}
 
+REAL_LIMITS = {"i8": (-128, 127), "u8": (0, 255), "i16": (-2 ** 15, 2 ** 15 - 1), "u16": (0, 2 ** 16 - 1), "i32": (-2 ** 31, 2 ** 31 - 1), "u32": (0, 2 ** 32 - 1)}
 FORCE_FALLBACK = False     # probe crates: integer ranges must be exhaustive for rustc
 
 # ---- value generators ---------------------------------------------------------------------------
@@ -80,8 +81,13 @@ def gen_range_spec(rng, ty, allow_fallback=True):
 
     def n():
         v = rng.range(lo, hi)
+        if ty in REAL_LIMITS and rng.chance(1, 40):
+            # a number that does not fit the range type (rejected whatever the file format: RangeNumberType / RangeParse)
+            tlo, thi = REAL_LIMITS[ty]
+            v = rng.pick([thi + rng.range(1, 1000), tlo - rng.range(1, 1000), thi + 1, tlo - 1])
         if isf and rng.chance(1, 2):
-            return f"{v}.{rng.pick(['5', '25', '75', '0', '125'])}"
+            # f64: also decimals that are not exactly representable (their f32 neighbours are other numbers)
+            return f"{v}.{rng.pick(['5', '25', '75', '0', '125'] + (['1', '3', '7'] if ty == 'f64' else []))}"
         return str(v)
     w = lambda: rng.pick(["", "", " "])
     k = rng.below(10)
@@ -113,7 +119,7 @@ def gen_ranges(rng, strings, ty="?", count_name=None):
     nb = rng.range(1, 4)
     fallback = isf or FORCE_FALLBACK or rng.chance(2, 3)
     for i in range(nb):
-        spec_n = rng.range(1, 2)
+        spec_n = rng.weighted([(5, 1), (3, 2), (2, 3), (1, 4)])      # count lists with three and more alternatives too
         specs = [gen_range_spec(rng, eff) for _ in range(spec_n)]
         val = strings(rng)
         if rng.chance(1, 2):
